@@ -1,4 +1,5 @@
 SPECIFICATION Spec
+CONSTANT L = 4
 CHECK_DEADLOCK FALSE
 INVARIANT FileAllOrError
 INVARIANT Replay
